@@ -66,9 +66,32 @@ type c14Engine struct {
 	storage *filterlist.RuleStorage
 }
 
+// c14Twin maps a list (or a request) to its twin: same line lengths, hence
+// identical rule offsets, different host names.
+var c14Twin = strings.NewReplacer("example", "exbmple", "ads", "adz", "tracker", "trbcker", "google", "gobgle", "banner", "bbnner", "a.com", "o.com", "evil", "evjl")
+
 func c14Build(kind, content, file string) (*c14Engine, error) {
 	var s *filterlist.RuleStorage
-	if file != "" {
+	if strings.HasPrefix(file, "twin:") {
+		// Two lists with identical offsets (list 2 is the twin of list 1).
+		path := strings.TrimPrefix(file, "twin:")
+		var ls []filterlist.RuleList
+		if path == "" {
+			ls = []filterlist.RuleList{&filterlist.StringRuleList{ID: 1, RulesText: content}, &filterlist.StringRuleList{ID: 2, RulesText: c14Twin.Replace(content)}}
+		} else {
+			for i, p := range []string{path, path + ".twin"} {
+				fl, err := filterlist.NewFileRuleList(i+1, p, false)
+				if err != nil {
+					return nil, err
+				}
+				ls = append(ls, fl)
+			}
+		}
+		var err error
+		if s, err = filterlist.NewRuleStorage(ls); err != nil {
+			return nil, err
+		}
+	} else if file != "" {
 		fl, err := filterlist.NewFileRuleList(1, file, false)
 		if err != nil {
 			return nil, err
@@ -158,9 +181,21 @@ func c14Run(c *core.Ctx, idx int) {
 			return
 		}
 	}
+	twin := c.Rng.Intn(3) == 0
+	if twin {
+		if file != "" {
+			if err := os.WriteFile(file+".twin", []byte(c14Twin.Replace(content)), 0o644); err != nil {
+				c.Inconclusive("cannot write scratch file")
+
+				return
+			}
+		}
+		file = "twin:" + file
+		c.Event("rounds_two_lists_identical_offsets", 1)
+	}
 	g := []int{2, 4, 8, 16, 32}[c.Rng.Intn(5)]
 	mode := c.Rng.Intn(4)
-	w := c14Witness{Engine: kind, FileBacked: file != "", Goroutines: g, Mode: c14ModeNames[mode], Rules: len(lines), ListHead: lines[:min(8, len(lines))]}
+	w := c14Witness{Engine: kind, FileBacked: file != "" && file != "twin:", Goroutines: g, Mode: c14ModeNames[mode], Rules: len(lines), ListHead: lines[:min(8, len(lines))]}
 
 	// Requests: few keys, many threads.
 	var distinct []*gen.Req
@@ -192,6 +227,14 @@ func c14Run(c *core.Ctx, idx int) {
 			}
 		}
 		distinct = append(distinct, q)
+	}
+	if twin {
+		// Ask for the twin of every request as well.
+		for _, q := range append([]*gen.Req(nil), distinct...) {
+			t := *q
+			t.URL, t.Source, t.Host = c14Twin.Replace(q.URL), c14Twin.Replace(q.Source), c14Twin.Replace(q.Host)
+			distinct = append(distinct, &t)
+		}
 	}
 	total := 50 + c.Rng.Intn(450)
 	if c.Env.Tier == core.Quick {
@@ -229,6 +272,7 @@ func c14Run(c *core.Ctx, idx int) {
 	}
 	defer conEng.storage.Close()
 	sched := mon.NewSched(c.Rng.Int63(), mode, []float64{0.05, 0.2, 0.5}[c.Rng.Intn(3)])
+	sched.OffsetKeys = twin
 	mon.SetExtra(sched.Handle)
 	defer mon.SetExtra(nil)
 
@@ -300,7 +344,7 @@ func c14Run(c *core.Ctx, idx int) {
 	// What was observed.
 	c.Event("rounds_"+kind, 1)
 	c.Event("rounds_mode_"+c14ModeNames[mode], 1)
-	if file != "" {
+	if file != "" && file != "twin:" {
 		c.Event("rounds_file_backed", 1)
 	}
 	c.Event("concurrent_queries", int64(total))
@@ -332,7 +376,7 @@ func init() {
 		ID:      "C14",
 		Level:   "exploration",
 		Workers: 8,
-		Rule: "harness built with -race; per round a fresh cold storage (String- or File-backed) and engine (DNS, full Engine, NetworkEngine.MatchAll, cosmetic, or web+cosmetic queries mixed on one Engine) over a generated list of 100..400 (thorough 2000) lines or an easylist slice, a request multiset of 50..250 (thorough 500) drawn from 5..30 distinct requests (few keys, many threads; URLs repeating indexed windows) partitioned over 2/4/8/16/32 goroutines released by a barrier; " +
+		Rule: "harness built with -race; per round a fresh cold storage (String- or File-backed) and engine (DNS, full Engine, NetworkEngine.MatchAll, cosmetic, or web+cosmetic queries mixed on one Engine) over a generated list of 100..400 (thorough 2000) lines or an easylist slice (in a third of the rounds two lists with identical rule offsets: the list and a twin with other host names), a request multiset of 50..250 (thorough 500) drawn from 5..30 distinct requests (few keys, many threads; URLs repeating indexed windows) partitioned over 2/4/8/16/32 goroutines released by a barrier; " +
 			"schedule perturbation at the hook points (cache miss/insert, between Seek and read, before regexp.Compile, pool get/put) in one of four modes: none, Gosched with probability p, 1..50 us sleep, rendezvous (the first goroutine at a miss/seek/compile point of key K is held until a second one reaches the same point and key); " +
 			"monitors: race detector reports (log parsed after every round), every concurrent answer == the sequential answer of a separate engine over the same bytes (sorted text multisets), no panic; non-trivial = round with cache misses; distinct by the observed global order of miss/insert events (the interleaving signature)",
 		Assumptions: []string{
